@@ -65,6 +65,10 @@ def catalogue(kind):
     F.append(("switch-text-Maybe", new_msg("switch", ['<oneSwitch name="A">Maybe</oneSwitch>'], name="TGT" if k == "switch" else "OTHER"), []))
     for bad in ("abc", "1e5", "", "1:2:3:4", "--1"):
         F.append(("number-text-%s" % (bad or "empty"), new_msg("number", ['<oneNumber name="A">%s</oneNumber>' % bad]), []))
+    # syntactically valid numbers that no float can hold
+    F.append(("number-text-huge-int", new_msg("number", ['<oneNumber name="A">%s</oneNumber>' % ("9" * 400)]), []))
+    F.append(("number-text-huge-decimal", new_msg("number", ['<oneNumber name="A">%s.5</oneNumber>' % ("9" * 400)]), []))
+    F.append(("number-text-huge-sexagesimal", new_msg("number", ['<oneNumber name="A">%s:30</oneNumber>' % ("9" * 400)]), []))
     F.append(("base64-bad-padding", new_msg("blob", ['<oneBLOB name="A" size="3" format=".x">QUJD=</oneBLOB>']), []))
     F.append(("base64-illegal-chars", new_msg("blob", ['<oneBLOB name="A" size="3" format=".x">@@@@</oneBLOB>']), []))
     F.append(("blob-size-wrong", new_msg("blob", ['<oneBLOB name="A" size="5" format=".x">%s</oneBLOB>' % b64(b"abc")]), [("TGT", "A", (b"abc", ".x"))]))
@@ -86,6 +90,10 @@ def catalogue(kind):
     F.append(("unknown-tag", "<fooBar device=\"DEV0\"><oneText name=\"A\">x</oneText></fooBar>", []))
     F.append(("newLightVector", '<newLightVector device="DEV0" name="TGT"><oneLight name="A">Alert</oneLight></newLightVector>', []))
     F.append(("write-to-bystander-wrong-kind", new_msg(k, [vc], name="OTHER"), [("OTHER", "A", vv)]))
+    # direct router calls only: the sender is not a registered client
+    F.append(("enableBLOB-from-unregistered-sender", "@unregistered:<enableBLOB device=\"DEV0\">Also</enableBLOB>", []))
+    F.append(("enableBLOB-without-sender", "@nosender:<enableBLOB device=\"DEV0\">Only</enableBLOB>", []))
+    F.append(("write-from-unregistered-sender", "@unregistered:" + new_msg(k, [valid_child(k, "ZZ", 3)[0]]), []))
     return F
 
 
@@ -169,13 +177,23 @@ class Session:
         """returns 'ok' | 'unparseable' (direct only)"""
         import indi.message as M
 
+        special = None
+        if xml.startswith("@"):
+            special, xml = xml[1:].split(":", 1)
+            if self.transport != "direct":
+                return "not-applicable"
         if self.transport == "direct":
             try:
                 msg = M.IndiMessage.from_string(xml)
             except Exception:
                 return "unparseable"
+            sender = self.xh if who == "X" else self.yh
+            if special == "unregistered":
+                sender = type(self.xh)()
+            elif special == "nosender":
+                sender = None
             try:
-                self.w.router.process_message(msg, sender=self.xh if who == "X" else self.yh)
+                self.w.router.process_message(msg, sender=sender)
             except Exception as e:  # noqa
                 self.escaped.append(e)
             return "ok"
@@ -199,8 +217,9 @@ class Session:
         return link.server_ep.written().decode("latin1")
 
 
-def run_session(variant, transport, faults, slots):
-    """faults: list of (id, xml, named); slots: parallel list of slot indices 0..3"""
+def run_session(variant, transport, faults, slots, glued=False):
+    """faults: list of (id, xml, named); slots: parallel list of slot indices 0..3
+    glued: the fault and the valid message that follows it arrive in one read / one line"""
     kind = variant.split("-")[0]
     s = Session(variant, transport)
     obs = {"fails": []}
@@ -232,15 +251,19 @@ def run_session(variant, transport, faults, slots):
         named = []
         delivered_faults = 0
         for i, (what, xml) in enumerate(steps):
+            prefix = ""
             for (fid, fxml, fnamed), slot in zip(faults, slots):
                 if slot == i:
-                    if s.send(fxml) == "ok":
+                    if glued and xml and transport != "direct" and not fxml.startswith("@"):
+                        prefix += fxml
+                        delivered_faults += 1
+                    elif s.send(fxml) == "ok":
                         delivered_faults += 1
                     named += fnamed
             if xml:
                 mark_y = len(s.output("Y"))
                 mark_x = len(s.output("X"))
-                s.send(xml)
+                s.send(prefix + xml)
         obs["delivered_faults"] = delivered_faults
         # final request
         mark_x = len(s.output("X"))
@@ -353,10 +376,11 @@ def run_shard(shard):
     if mode == "single":
         for f in cat:
             for slot in range(4):
-                o = run_session(variant, transport, [f], [slot])
-                res["evaluations"] += 1
-                res["sessions_with_fault_delivered"] += 1 if o.get("delivered_faults") else 0
-                record([f], [slot], o["fails"])
+                for glued in (False, True) if transport != "direct" else (False,):
+                    o = run_session(variant, transport, [f], [slot], glued)
+                    res["evaluations"] += 1
+                    res["sessions_with_fault_delivered"] += 1 if o.get("delivered_faults") else 0
+                    record([f], [slot, "glued"] if glued else [slot], o["fails"])
     else:
         for f1, f2 in itertools.permutations(cat, 2):
             for slots in ((1, 1), (1, 3), (3, 3)):
@@ -389,6 +413,7 @@ def replay(rep):
     variant = rep["variant"]
     cat = {f[0]: f for f in catalogue(variant.split("-")[0])}
     faults = [cat[f] for f in rep["faults"]]
-    o = run_session(variant, rep["transport"], faults, rep["slots"])
+    slots = [x for x in rep["slots"] if x != "glued"]
+    o = run_session(variant, rep["transport"], faults, slots, "glued" in rep["slots"])
     fid = faults[0][0] if faults else "none"
     return [{"clause": c, "disc": d + ",fault=" + fid, "what": w} for c, d, w in o["fails"]]
